@@ -163,6 +163,14 @@ fn helper(name: &str, a: &[Value]) -> Value {
         "strict_eq" => json!({"b": js_op::strict_eq(&a[0], &a[1])}),
         "strict_ne" => json!({"b": js_op::strict_ne(&a[0], &a[1])}),
         "strict_eq_same" => json!({"b": js_op::strict_eq(&a[0], &a[0])}),
+        // one reference passed twice: the helpers are functions of the values, never of identity
+        "abstract_eq_same" => json!({"b": js_op::abstract_eq(&a[0], &a[0])}),
+        "abstract_ne_same" => json!({"b": js_op::abstract_ne(&a[0], &a[0])}),
+        "abstract_lt_same" => json!({"b": js_op::abstract_lt(&a[0], &a[0])}),
+        "abstract_gt_same" => json!({"b": js_op::abstract_gt(&a[0], &a[0])}),
+        "abstract_lte_same" => json!({"b": js_op::abstract_lte(&a[0], &a[0])}),
+        "abstract_gte_same" => json!({"b": js_op::abstract_gte(&a[0], &a[0])}),
+        "abstract_plus_same" => json!({"v": enc(&js_op::abstract_plus(&a[0], &a[0]))}),
         "abstract_lt" => json!({"b": js_op::abstract_lt(&a[0], &a[1])}),
         "abstract_gt" => json!({"b": js_op::abstract_gt(&a[0], &a[1])}),
         "abstract_lte" => json!({"b": js_op::abstract_lte(&a[0], &a[1])}),
